@@ -1,6 +1,13 @@
 //! Filesystem + remote metadata discovery for the quick check, plus the mtime
 //! preservation helpers that keep it stable across runs.
 
+#[cfg(paiml_copia_verif)]
+#[allow(unused_imports)]
+use copia_simworld::shim::{fs2, std, tokio};
+#[cfg(paiml_copia_verif)]
+#[allow(unused_imports)]
+use copia_simworld::{eprintln, println};
+
 use super::plan::{FileMeta, MetaMap};
 use super::reconcile::{FileType, Fingerprint, FpMap};
 use super::transfer::discover_local_files;
